@@ -147,7 +147,8 @@ def seq_ops(job):
 
 
 def patterns(seed, n):
-    return list(dict.fromkeys([bytes(n), b"\xff" * n, filler(seed, f"c08-{n}", n), b"\x80" + bytes(n - 1), bytes(n - 1) + b"\x01",
+    from vf.runner import lookalikes
+    return list(dict.fromkeys(lookalikes(n)[:2] + [bytes(n), b"\xff" * n, filler(seed, f"c08-{n}", n), b"\x80" + bytes(n - 1), bytes(n - 1) + b"\x01",
                                filler(seed + 7, f"c08b-{n}", n), b"\x00" + filler(seed, f"c08c-{n}", n - 1), bytes(n - 1) + b"\x80"]))
 
 
